@@ -115,6 +115,8 @@ type FnVC struct {
 	mutNoted      bool
 	usedLemmas    []string
 	quantPures    map[string]bool
+	cellCache     map[string]string
+	cellCacheOut  map[*ssa.BasicBlock]map[string]string
 }
 
 type pureDef struct {
@@ -442,7 +444,10 @@ func (vc *FnVC) rangeFacts(term string, t types.Type, depth int) []string {
 	}
 	switch u := t.Underlying().(type) {
 	case *types.Slice:
-		return []string{fmt.Sprintf("(and (<= 0 (s.off %s)) (<= 0 (s.len %s)) (<= (s.len %s) (s.cap %s)) (<= (+ (s.off %s) (s.cap %s)) 281474976710656) (>= (s.arr %s) 0) (=> (= (s.arr %s) 0) (= (s.cap %s) 0)))", term, term, term, term, term, term, term, term, term)}
+		// platform fact: a backing array occupies at most 2^48 bytes of address space
+		esz := elemSize(u.Elem())
+		bound := new(big.Int).Div(pow2(48), big.NewInt(esz)).String()
+		return []string{fmt.Sprintf("(and (<= 0 (s.off %s)) (<= 0 (s.len %s)) (<= (s.len %s) (s.cap %s)) (<= (+ (s.off %s) (s.cap %s)) %s) (>= (s.arr %s) 0) (=> (= (s.arr %s) 0) (= (s.cap %s) 0)))", term, term, term, term, term, term, bound, term, term, term)}
 	case *types.Struct:
 		var out []string
 		for i := 0; i < u.NumFields(); i++ {
@@ -457,6 +462,22 @@ func (vc *FnVC) rangeFacts(term string, t types.Type, depth int) []string {
 		return []string{fmt.Sprintf("(>= %s 0)", term)}
 	}
 	return nil
+}
+
+var stdSizes = types.SizesFor("gc", "amd64")
+
+// elemSize: size in bytes of a slice element on amd64 (at least 1).
+func elemSize(t types.Type) (sz int64) {
+	defer func() {
+		if r := recover(); r != nil {
+			sz = 1
+		}
+	}()
+	sz = stdSizes.Sizeof(t)
+	if sz < 1 {
+		sz = 1
+	}
+	return sz
 }
 
 func (vc *FnVC) strTerm(term string) string {
@@ -577,9 +598,94 @@ func (vc *FnVC) heapSet(comp, sort, term string) {
 	vc.declConst(n, sort)
 	vc.fact(fmt.Sprintf("(= %s %s)", n, term))
 	vc.curHeap[comp] = n
+	vc.cacheDrop(comp)
+}
+
+// Cell cache: the last value written to a cell of a locally allocated (fresh) object on
+// the current straight-line path. Fresh refs are distinct from every other ref, so a
+// read can be answered without reasoning through the chain of array stores.
+func (vc *FnVC) cacheDrop(comp string) {
+	for k := range vc.cellCache {
+		if strings.HasPrefix(k, comp+"|") {
+			delete(vc.cellCache, k)
+		}
+	}
+}
+
+func (vc *FnVC) cachePut(comp, ref, val string) {
+	if !vc.freshRoots[ref] {
+		return
+	}
+	if vc.cellCache == nil {
+		vc.cellCache = map[string]string{}
+	}
+	// other entries of the same component stay valid: distinct fresh refs, or refs that
+	// are not fresh and hence never cached
+	vc.cellCache[comp+"|"+ref] = val
+}
+
+var numeralRe = regexp.MustCompile(`^(\(- )?[0-9]+\)?$`)
+
+// arith builds (op a b). With `nlmul` (contract clause "linear"), a product of two
+// non-constant terms becomes an application of the uninterpreted function nlmul, whose
+// axioms (commutativity, sign, zero, one) are true of multiplication: every proof found
+// is valid for real multiplication, and the query stays in linear arithmetic.
+func (vc *FnVC) arith(op, a, b string) string {
+	if op == "*" && vc.fc != nil && vc.fc.Linear && !numeralRe.MatchString(a) && !numeralRe.MatchString(b) {
+		vc.decl("nlmul", "(declare-fun nlmul (Int Int) Int)")
+		vc.declAxiom("nlmul$ax", "(assert (forall ((x Int) (y Int)) (! (and (= (nlmul x y) (nlmul y x)) (=> (and (>= x 0) (>= y 0)) (>= (nlmul x y) 0)) (=> (= x 0) (= (nlmul x y) 0)) (=> (= x 1) (= (nlmul x y) y))) :pattern ((nlmul x y)))))")
+		// monotonicity in either argument position (non-negative operands)
+		vc.declAxiom("nlmul$mono", "(assert (forall ((x Int) (y Int) (z Int)) (! (=> (and (<= 0 x) (<= x z) (>= y 0)) (and (<= (nlmul x y) (nlmul z y)) (<= (nlmul y x) (nlmul y z)) (<= (nlmul x y) (nlmul y z)) (<= (nlmul y x) (nlmul z y)))) :pattern ((nlmul x y) (nlmul z y)) :pattern ((nlmul y x) (nlmul y z)) :pattern ((nlmul x y) (nlmul y z)) :pattern ((nlmul y x) (nlmul z y)))))")
+		vc.declAxiom("nlmul$mono2", "(assert (forall ((x Int) (y Int) (z Int) (w Int)) (! (=> (and (<= 0 x) (<= x z) (<= 0 y) (<= y w)) (<= (nlmul x y) (nlmul z w))) :pattern ((nlmul x y) (nlmul z w)))))")
+		// canonical argument order makes commuted products syntactically equal
+		if a > b {
+			a, b = b, a
+		}
+		return fmt.Sprintf("(nlmul %s %s)", a, b)
+	}
+	return fmt.Sprintf("(%s %s %s)", op, a, b)
+}
+
+// writeCell stores val into cell comp[ref] and remembers it when ref is a fresh object.
+func (vc *FnVC) writeCell(comp, sort, ref, val string) {
+	if vc.freshRoots[ref] && len(val) > 24 {
+		n := vc.freshConst("cell", "Int")
+		vc.fact(fmt.Sprintf("(= %s %s)", n, val))
+		val = n
+	}
+	saved := map[string]string{}
+	for k, v := range vc.cellCache {
+		if strings.HasPrefix(k, comp+"|") {
+			saved[k] = v
+		}
+	}
+	vc.heapSet(comp, sort, fmt.Sprintf("(store %s %s %s)", vc.heapGet(comp, sort), ref, val))
+	if vc.freshRoots[ref] {
+		// a write to a fresh ref leaves every other cached cell untouched
+		for k, v := range saved {
+			vc.cellCache[k] = v
+		}
+		vc.cachePut(comp, ref, val)
+	}
+	// a write through any other ref term may alias a fresh object (the term can be a copy
+	// of a fresh pointer): heapSet has dropped the component's cache, keep it dropped
+}
+
+// readCell reads cell comp[ref] from the current heap, short-cutting through the cache.
+func (vc *FnVC) readCell(comp, sort, ref string) string {
+	if v, ok := vc.cacheGet(comp, ref); ok {
+		return v
+	}
+	return fmt.Sprintf("(select %s %s)", vc.heapGet(comp, sort), ref)
+}
+
+func (vc *FnVC) cacheGet(comp, ref string) (string, bool) {
+	v, ok := vc.cellCache[comp+"|"+ref]
+	return v, ok
 }
 
 func (vc *FnVC) heapHavoc(comp, sort string) string {
+	vc.cacheDrop(comp)
 	vc.entryComp(comp, sort)
 	vc.heapVer++
 	n := fmt.Sprintf("%s@%d", comp, vc.heapVer)
@@ -657,7 +763,7 @@ func (vc *FnVC) loadObject(ref string, t types.Type, heap func(comp, sort string
 func (vc *FnVC) storeObject(ref string, t types.Type, val string) {
 	if isUint256(t) || isBigInt(t) {
 		c, s := vc.cellComp(t)
-		vc.heapSet(c, s, fmt.Sprintf("(store %s %s %s)", vc.heapGet(c, s), ref, val))
+		vc.writeCell(c, s, ref, val)
 		return
 	}
 	switch u := t.Underlying().(type) {
